@@ -445,13 +445,22 @@ EObserve ==
   /\ path' = <<db, PostOf(Ev, db)>>
   /\ UNCHANGED <<now, reqs, cand, snaps, faulted, sends, lapsed, plapsed, claims, seen, cfg, cyc, q0, rerr, idc, trav>>
 
+\* a dispatch cycle has selected its tasks (the result of its ReadEnqueueableTasks, at the moment
+\* of that read): remembered per cycle, judged by C08_DispatchSelectionT in this very state
+ESelect ==
+  /\ Consume /\ Ev.e = "select"
+  \* (a cycle begins with its selection: two cycles started at the same instant carry the same name)
+  /\ cyc' = Put(Put(cyc, "sel:" \o Ev.o, {<<Ev.tasks[i].id, Ev.tasks[i].counter>> : i \in DOMAIN Ev.tasks}), Ev.o, {})
+  /\ pdb' = db /\ chk' = NoChk /\ path' = <<db>>
+  /\ UNCHANGED <<db, exp, now, reqs, cand, snaps, faulted, sends, lapsed, plapsed, claims, seen, cfg, q0, rerr, idc, trav>>
+
 EOther ==
   /\ Consume /\ Ev.e \notin {"reset", "submit", "tick", "commit", "respond", "send", "route", "crash",
-                            "restart", "end", "observe", "quiesce", "chars", "cursor"}
+                            "restart", "end", "observe", "quiesce", "chars", "cursor", "select"}
   /\ pdb' = db /\ chk' = NoChk /\ path' = <<db>>
   /\ UNCHANGED <<db, exp, now, reqs, cand, snaps, faulted, sends, lapsed, plapsed, claims, seen, cfg, cyc, q0, rerr, idc, trav>>
 
-Next == EChars \/ ECursor \/ EReset \/ ESubmit \/ ETick \/ ECommit \/ ERespond \/ ESend \/ ERoute \/ ECrash \/ EQuiesce \/ EObserve \/ EOther
+Next == ESelect \/ EChars \/ ECursor \/ EReset \/ ESubmit \/ ETick \/ ECommit \/ ERespond \/ ESend \/ ERoute \/ ECrash \/ EQuiesce \/ EObserve \/ EOther
 
 Spec == Init /\ [][Next]_vars
 
@@ -585,7 +594,15 @@ C08_RoutedHasTaskT ==
                        path[i + 1])
 C08_FinishedWithPromiseT == Steps(C08_FinishedWithPromise)
 C08_NoActiveInvokeOfCompletedT == \A i \in DOMAIN path : C08_NoActiveInvokeOfCompleted(path[i])
-C08_DispatchSelectionT == Last.e = "send" => C08_DispatchSelection(db, Last.task, Last.counter)
+\* a dispatch cycle selects only unclaimed tasks, at most one per root promise and none whose root
+\* has another task enqueued or claimed (judged when the cycle selects), and it dispatches only
+\* what it selected
+C08_DispatchSelectionT ==
+  /\ Last.e = "select" =>
+        /\ \A i \in DOMAIN Last.tasks : C08_DispatchSelection(db, Last.tasks[i].id, Last.tasks[i].counter)
+                                         /\ db.tasks[Last.tasks[i].id].state = T_INIT
+        /\ \A i, j \in DOMAIN Last.tasks : i # j => Last.tasks[i].rootId # Last.tasks[j].rootId
+  /\ Last.e = "send" => (Has(cyc, "sel:" \o Last.o) => <<Last.task, Last.counter>> \in cyc["sel:" \o Last.o])
 C08_OnePerRootPerCycle == Last.e = "send" => ~ chk.dupRoot
 \* the dispatched message names the task and the counter with which a claim succeeds, and
 \* carries the three links for exactly that pair; a notification carries the promise
